@@ -378,7 +378,8 @@ func bytesOfOpt(o dhcpv4.Options, code uint8) ([]byte, bool) {
 
 func runPlugins(c *Ctx) {
 	if c.Prop == "C19" {
-		runCodec(c) // the option TLV codec against lib/Opt4Codec.v
+		runCodec(c)      // the option TLV codec against lib/Opt4Codec.v
+		runStateful19(c) // argument vectors of the stateful plugins (prefix, range, file)
 	}
 	c.SetCases("From Verif Require Import Base Msg4 Msg6 Plugins4 Plugins6 Setup PluginRun.", "PluginRun.mismatches")
 	c.shard = 40
